@@ -48,7 +48,7 @@ LINES = {
 PAGES = {'A': ['X1', 'K', 'X2'], 'B': ['X1', 'K', 'X3'], 'C': ['K', 'K2'], 'D': [], 'E': ['X2'], 'F': ['X1', 'X3'], 'G': ['Z'], 'H': ['W', 'X3']}
 PAGE_IDS = sorted(PAGES)
 N_CORE_PAGES = 6                      # histories of three and more pages use the pages A-F; G and H take part in all histories of up to two
-DEC_CFGS = ['greedy', 'beam', 'beam_lm', 'beam_lm_carry', 'beam1_lm', 'beam1_lm_carry']
+DEC_CFGS = ['greedy', 'beam', 'beam_lm', 'beam_lm_carry', 'beam1_lm', 'beam1_lm_carry', 'beam_dropoutlm_carry']      # last: an LM with dropout, handed over as constructed
 THRESHOLDS = [None, 0.5, 0.0]
 # page alphabet for the PageParser driver: painted lines (y, x0, symbols)
 IMG_PAGES = {
@@ -108,6 +108,8 @@ def run_shard(shard, ctx, tier):
     b = BOUNDS[tier]
     if shard['kind'] == 'dec':
         for L in range(1, b['depth'] + 1):
+            if 'dropout' in DEC_CFGS[shard['cfg'][0]] and L > 2:
+                continue
             n = len(PAGE_IDS) if L <= 2 else N_CORE_PAGES
             if shard['first'] >= n:
                 continue
@@ -145,7 +147,8 @@ def make_page_decoder(dc, th):
     elif name == 'beam':
         dec = CTCPrefixLogRawNumpyDecoder(LETTERS, 4)
     else:
-        dec = CTCPrefixLogRawNumpyDecoder(LETTERS, 1 if name.startswith('beam1') else 4, lm=stubs.make_lm_wrapper(0, LETTERS[:-1]), lm_scale=1.0)
+        dec = CTCPrefixLogRawNumpyDecoder(LETTERS, 1 if name.startswith('beam1') else 4, lm=stubs.make_lm_wrapper(3 if 'dropout' in name else 0, LETTERS[:-1]),
+                                          lm_scale=1.0)
     return PageDecoder(dec, line_confidence_threshold=THRESHOLDS[th], carry_h_over=name.endswith('carry'))
 
 
